@@ -16,7 +16,7 @@ LEVEL = 'exploration'
 CHUNK = 60
 RULE = ('Part 1: all sequences of <= 2 placed statements over {def A, def B referencing A, def B, use A, use B, redefinition of A with another type, definition of a builtin name, self-referential definition} x phases '
         '{setup, act (uses), before-assert, assert, cleanup}, and all sequences of 3 over {def A, def B(A), use A, use B} x 4 phases, each in 2..3 file orders of the phase blocks; '
-        'Part 2: 17 ways a symbol reaches a context (7 types directly; string built from string / list / path through 1 and 2 definitions; list/path next to a string sibling; list holding a path) x 22 contexts '
+        'Part 2: 26 ways a symbol reaches a context (7 types directly; string built from string / list / path through 1 and 2 definitions; list/path next to a string sibling; list holding a path) x 22 contexts '
         'plus 9 instructions that reference ONE symbol twice in contexts demanding different types '
         'with a documented demand x phase of use; Part 3: value rendering (concatenation, list splicing, list in string, absolute paths, -rel-cd at reference time); '
         'non-trivial = the program contains a reference; distinct by construction')
@@ -154,6 +154,12 @@ ROWS = {
     'sibling-path-2nd': (['def string A0 = 7', 'def path M0 = -rel-act 7', 'def string M = "@[A0]@@[M0]@"'], 'string', False),
     'sibling-list-deep': (['def string A0 = 7', 'def list L0 = 7', 'def string B0 = @[L0]@', 'def string M = "@[A0]@@[B0]@"'], 'string', False),
     'list-of-path': (['def path M0 = -rel-act 7', 'def list M = a @[M0]@'], 'list', True),
+    # the wrong-typed symbol sits two or three definitions down, below a reference that is NOT the last one of its definition
+    'deep-list-under-first': (['def string A0 = 7', 'def list L0 = 7', 'def string B0 = @[L0]@', 'def string M = "@[B0]@@[A0]@"'], 'string', False),
+    'deep-path-under-first': (['def string A0 = 7', 'def path P0 = -rel-act 7', 'def string B0 = @[P0]@', 'def string M = "@[B0]@-@[A0]@"'], 'string', False),
+    'deep-list-under-middle': (['def string A0 = 7', 'def list L0 = 7', 'def string B0 = @[L0]@', 'def string M = "@[A0]@@[B0]@@[A0]@"'], 'string', False),
+    'deep3-list-under-first': (['def string A0 = 7', 'def list L0 = 7', 'def string B0 = "@[L0]@"', 'def string C0 = "@[B0]@@[A0]@"', 'def string M = "@[C0]@@[A0]@"'], 'string', False),
+    'deep3-path-under-first-of-last': (['def string A0 = 7', 'def path P0 = -rel-act 7', 'def string B0 = "@[P0]@"', 'def string C0 = "@[B0]@@[A0]@"', 'def string M = "@[A0]@@[C0]@"'], 'string', False),
     'file-matcher': (['def file-matcher M = type file'], 'file-matcher', True),
     'files-matcher': (['def files-matcher M = is-empty'], 'files-matcher', True),
     'line-matcher': (['def line-matcher M = line-num == 1'], 'line-matcher', True),
